@@ -3,14 +3,21 @@ package checks
 import (
 	"bytes"
 	"fmt"
+	"os"
+	"path/filepath"
 	"sort"
 	"strings"
+	"time"
+
+	billy "github.com/go-git/go-billy/v6"
+	"github.com/go-git/go-billy/v6/osfs"
 
 	git "github.com/go-git/go-git/v6"
 	"github.com/go-git/go-git/v6/config"
 	"github.com/go-git/go-git/v6/plumbing"
 	"github.com/go-git/go-git/v6/plumbing/cache"
 	"github.com/go-git/go-git/v6/plumbing/object"
+	"github.com/go-git/go-git/v6/storage"
 	"github.com/go-git/go-git/v6/storage/filesystem"
 
 	"verifmc/fw"
@@ -75,8 +82,76 @@ type c26Kind struct {
 	build func(st *filesystem.Storage, n string) []c26Entry
 }
 
+// c26Alias classifies one path component against the names that an aliasing filesystem resolves to ".git". It is
+// written from git's rules (verify_dotfile, is_hfs_dotgit, is_ntfs_dotgit), not from go-git's pathutil:
+// "exact" = .git; "case" = .git / git~1 in any letter case (git refuses these whatever the configuration);
+// "hfs" = .git once HFS+ ignorable code points are dropped (protectHFS); "ntfs" = .git or git~1 followed by spaces /
+// periods and/or an alternate-data-stream suffix (protectNTFS); "" = an ordinary name.
+func c26Alias(comp string) string {
+	if comp == ".git" {
+		return "exact"
+	}
+	l := strings.ToLower(comp)
+	if l == ".git" || l == "git~1" {
+		return "case"
+	}
+	stripped := strings.Map(func(r rune) rune {
+		switch {
+		case r >= 0x200c && r <= 0x200f, r >= 0x202a && r <= 0x202e, r >= 0x206a && r <= 0x206f, r == 0xfeff:
+			return -1
+		}
+		return r
+	}, comp)
+	if stripped != comp && strings.ToLower(stripped) == ".git" {
+		return "hfs"
+	}
+	for _, pre := range []string{".git", "git~1"} {
+		if len(l) > len(pre) && strings.HasPrefix(l, pre) {
+			rest := l[len(pre):]
+			if i := strings.IndexByte(rest, ':'); i >= 0 {
+				rest = rest[:i]
+			}
+			if strings.Trim(rest, " .") == "" {
+				return "ntfs"
+			}
+		}
+	}
+	return ""
+}
+
+// c26InGit says whether world path p (under /wt) lies in the repository's .git directory, directly or through a
+// name that the configured protections promise to treat as .git.
+func c26InGit(p string, mutating, ntfs, hfs bool) (bool, string) {
+	rest := strings.TrimPrefix(p, "/wt/")
+	if rest == p || rest == "" {
+		return false, ""
+	}
+	first, below, _ := strings.Cut(rest, "/")
+	al := c26Alias(first)
+	on := al == "exact" || al == "case" || al == "ntfs" && ntfs || al == "hfs" && hfs
+	if !on {
+		return false, ""
+	}
+	if below == "" && !mutating {
+		return false, ""
+	}
+	if al == "exact" {
+		return true, ""
+	}
+	return true, " (" + al + " alias of .git)"
+}
+
+type c26Case struct {
+	name      string
+	k1, k2    int    // k2 = -1: single commit
+	planted   string // "", "a->/outside", "a->.git", "a->../outside", "a->/outside/x", "a->.git/config", "aliasdir"
+	swap      string // worktree change made between the checkout of c1 and the next operation: "", "->/outside", "->.git", "deep->.git", "deep->/outside"
+	ntfs, hfs bool
+	script    string // force | merge | pick | glob
+}
+
 func runC26(c *fw.Ctx) {
-	names := []string{".git", ".GIT", ".git.", "git~1", ".g‌it", "..", ".", "a", ".gitmodules", "a/b", "a\\b", ".git ", "GIT~1", ".gitignore"}
+	names := []string{".git", ".GIT", ".git.", "git~1", ".g‌it", "..", ".", "a", ".gitmodules", "a/b", "a\\b", ".git ", "GIT~1", ".gitignore", ".git::$INDEX_ALLOCATION", ".Git"}
 	childNames := []string{"x", ".git", "..", "config", "hooks"}
 	targets := []string{"..", ".git", "/outside", "../outside", ".git/hooks", "b"}
 	if !c.Thorough() {
@@ -87,8 +162,8 @@ func runC26(c *fw.Ctx) {
 	c.Bound("entry_names", names)
 	c.Bound("child_names", childNames)
 	c.Bound("symlink_targets", targets)
-	c.SetRule("trees written raw (bypassing go-git's encoder): every top-level name x kind {file, symlink to each target, gitlink, directory holding each child name as file or symlink}; single commits and every two-commit sequence in which one top-level name changes kind (symlink -> directory and back, the classic escape); x pre-planted worktree symlinks (a -> /outside, a -> .git) x protectNTFS/protectHFS on/off; operations: Checkout(force), Reset(hard), Checkout of the second commit, then Status, Add, Remove, Move, Clean on the resulting worktree; oracle = the complete mcfs journal by view: every call made through the worktree filesystem resolves (after symlink resolution) under /wt and not inside /wt/.git; every call made through the storage filesystem resolves under /wt/.git; sentinel files in /outside, /wt/.git/config and /wt/.git/hooks are byte-identical; distinct = (case shape, outcome, escaped-path set)")
-	c.Assume("mcfs resolves symlinks without confinement (the guards under test are go-git's own, not the OS's); mcfs is case-sensitive, so case/NTFS/HFS aliasing is exercised only through go-git's name checks; submodule update over the network is not driven")
+	c.SetRule("trees written raw (bypassing go-git's encoder): every top-level name x kind {absent, file, symlink to each target, gitlink, directory holding each child name as file or symlink, directory with a deep path}; single commits and two-commit sequences in which one top-level name changes kind (symlink <-> directory, anything <-> absent); x pre-planted worktree state (a -> /outside, a -> .git, a -> a FILE outside or in .git, a directory named like an alias of .git) x worktree swapped between the two checkouts (directory replaced by a link, at the top or one level down) x protectNTFS/protectHFS; scripts: force = Checkout(force), Reset(hard), Status, Add, Move, Remove, Clean, Restore; merge = the same commits through non-forced Checkout, Reset merge/keep/mixed, Reset with Files (the resetWorktree path); pick = CherryPick theirs/ours; glob = AddGlob, AddWithOptions(All), RemoveGlob, Clean(no Dir); submodule pass = .gitmodules {name x path} x planted/swapped links: Submodules, Init, Repository, Status, Update(NoFetch) and Storer.Module on every name; osfs pass = a subset on a real directory (osfs.BoundOS, the os.Root bulk-checkout path) judged by sentinels; oracle = the complete mcfs journal by view: every call made through the worktree filesystem resolves (after symlink resolution) under /wt and not inside /wt/.git nor inside a first-level name that the configured protections treat as .git (independent alias classifier); every call made through the storage filesystem resolves under /wt/.git, a submodule's storage under /wt/.git/modules; sentinel files byte-identical; distinct = (script, outcome, escaped-path count)")
+	c.Assume("mcfs resolves symlinks without confinement (the guards under test are go-git's own, not the OS's); mcfs is case-sensitive: a path through an alias of .git (.GIT, git~1, '.git.', HFS ignorables) counts as inside .git when the corresponding protection is configured (case/git~1: always); submodule update over the network is not driven (NoFetch)")
 	n, err := mcfs.Conformance(c.Scratch(), 2)
 	c.Must(err, "mcfs/osfs conformance")
 	c.Extra("mcfs_osfs_conformance_sequences", n)
@@ -103,12 +178,15 @@ func runC26(c *fw.Ctx) {
 	}
 	base.WriteFile("/outside/x", []byte("SENTINEL-OUTSIDE"), false)
 	base.WriteFile("/outside/sub/y", []byte("SENTINEL-OUTSIDE-2"), false)
+	base.WriteFile("/outside/gm", []byte("[submodule \"m\"]\n\tpath = sm\n\turl = /outside/remote.git\n"), false)
 	base.WriteFile("/wt/.git/refs/heads/main", []byte("1234567890123456789012345678901234567890\n"), false)
 	base.WriteFile("/wt/.git/hooks/pre-commit", []byte("SENTINEL-HOOK"), true)
 	base.WriteFile("/wt/untracked", []byte("u"), false)
-	sentinels := []string{"/outside/x", "/outside/sub/y", "/wt/.git/hooks/pre-commit", "/wt/.git/config", "/wt/.git/refs/heads/main"}
+	sentinels := []string{"/outside/x", "/outside/sub/y", "/outside/gm", "/wt/.git/hooks/pre-commit", "/wt/.git/config", "/wt/.git/refs/heads/main"}
 
-	blob := func(st *filesystem.Storage, s string) plumbing.Hash { return c26RawObject(st, plumbing.BlobObject, []byte(s)) }
+	blob := func(st *filesystem.Storage, s string) plumbing.Hash {
+		return c26RawObject(st, plumbing.BlobObject, []byte(s))
+	}
 	var kinds []c26Kind
 	kinds = append(kinds, c26Kind{"file", func(st *filesystem.Storage, n string) []c26Entry {
 		return []c26Entry{{"100644", n, blob(st, "content of "+n+"\n")}}
@@ -146,40 +224,106 @@ func runC26(c *fw.Ctx) {
 			return []c26Entry{{"40000", n, sub}}
 		}})
 	}
-	type cas struct {
-		name    string
-		k1, k2  int // k2 = -1: single commit
-		planted string // "", "a->/outside", "a->.git"
-		ntfs, hfs bool
+	// the name is not in the tree at all: with a second commit this is "the entry is deleted / appears", with a
+	// planted link it leaves the link alone for the operations that follow
+	absent := len(kinds)
+	kinds = append(kinds, c26Kind{"absent", func(st *filesystem.Storage, n string) []c26Entry { return nil }})
+	isDir := func(k int) bool { return strings.HasPrefix(kinds[k].name, "dir") }
+	isSym := func(k int) bool { return strings.HasPrefix(kinds[k].name, "symlink") }
+	isDeep := func(k int) bool {
+		return isDir(k) && strings.Contains(kinds[k].name, "/") && !strings.Contains(kinds[k].name, "->")
 	}
-	var cases []cas
+
+	var cases []c26Case
+	quickSeqName := func(n string) bool { return n == "a" || n == ".gitmodules" || n == "git~1" || n == ".gitignore" }
 	for _, n := range names {
 		for k1 := range kinds {
-			for _, prot := range [][2]bool{{true, true}, {false, false}} {
-				cases = append(cases, cas{n, k1, -1, "", prot[0], prot[1]})
+			if k1 != absent {
+				for _, prot := range [][2]bool{{true, true}, {false, false}} {
+					cases = append(cases, c26Case{n, k1, -1, "", "", prot[0], prot[1], "force"})
+				}
+				// the same commit through the non-forced checkout (merge-mode reset, resetWorktree)
+				cases = append(cases, c26Case{n, k1, -1, "", "", true, false, "merge"})
 			}
 			for k2 := range kinds {
 				if k1 == k2 {
 					continue
 				}
-				// only transitions that involve a symlink or a directory can redirect writes
-				a, b := kinds[k1].name, kinds[k2].name
-				if !(strings.HasPrefix(a, "symlink") || strings.HasPrefix(b, "symlink") || strings.HasPrefix(a, "dir") && strings.HasPrefix(b, "dir")) {
+				toFromAbsent := k1 == absent || k2 == absent
+				// only transitions that involve a symlink, two directories, or the entry appearing/disappearing can redirect writes
+				if !(isSym(k1) || isSym(k2) || isDir(k1) && isDir(k2) || toFromAbsent) {
 					continue
 				}
-				if !c.Thorough() && n != "a" && n != ".gitmodules" && n != "git~1" && n != ".gitignore" {
+				if !c.Thorough() && !quickSeqName(n) && !toFromAbsent {
 					continue
 				}
-				cases = append(cases, cas{n, k1, k2, "", true, false})
+				cases = append(cases, c26Case{n, k1, k2, "", "", true, false, "force"})
+				if n == "a" || c.Thorough() && quickSeqName(n) {
+					cases = append(cases, c26Case{n, k1, k2, "", "", true, false, "merge"})
+					if k1 != absent {
+						cases = append(cases, c26Case{n, k1, k2, "", "", true, false, "pick"})
+					}
+				} else if toFromAbsent && k1 != absent && (c26Alias(n) != "" || c.Thorough()) {
+					cases = append(cases, c26Case{n, k1, k2, "", "", true, false, "pick"})
+				}
 			}
 		}
 	}
-	for _, planted := range []string{"a->/outside", "a->.git", "a->../outside"} {
+	planteds := []string{"a->/outside", "a->.git", "a->../outside", "a->/outside/x", "a->.git/config"}
+	for _, planted := range planteds {
 		for k1 := range kinds {
-			cases = append(cases, cas{"a", k1, -1, planted, true, false})
+			for _, script := range []string{"force", "merge", "glob"} {
+				cases = append(cases, c26Case{"a", k1, -1, planted, "", true, false, script})
+			}
+		}
+	}
+	// the worktree is changed under go-git between two operations: the directory written by the first checkout
+	// is replaced by a link (at the top, or one level down for the deep kinds)
+	for k1 := range kinds {
+		if !isDir(k1) {
+			continue
+		}
+		swaps := []string{"->/outside", "->.git", "->../outside", "->.git/config", "->/outside/x"}
+		if isDeep(k1) {
+			swaps = append(swaps, "deep->.git", "deep->/outside")
+		}
+		for _, sw := range swaps {
+			for _, k2 := range []int{absent, 0, k1} {
+				for _, script := range []string{"force", "merge", "pick", "glob"} {
+					if k2 == k1 && script != "glob" && script != "force" {
+						continue
+					}
+					kk := k2
+					if k2 == k1 {
+						kk = -1
+					}
+					cases = append(cases, c26Case{"a", k1, kk, "", sw, true, false, script})
+				}
+			}
+		}
+	}
+	// a real directory whose name an aliasing filesystem resolves to .git (what .git looks like through the alias)
+	for _, n := range names {
+		if al := c26Alias(n); al == "" || al == "exact" {
+			continue
+		}
+		for k1 := range kinds {
+			if k := kinds[k1].name; k != "absent" && k != "file" && k != "dir{x}" && k != "dir{config}" {
+				continue
+			}
+			for _, prot := range [][2]bool{{true, true}, {false, false}} {
+				for _, script := range []string{"force", "glob"} {
+					cases = append(cases, c26Case{n, k1, -1, "aliasdir", "", prot[0], prot[1], script})
+				}
+			}
 		}
 	}
 	c.Bound("cases", len(cases))
+	perScript := map[string]int{}
+	for _, cs := range cases {
+		perScript[cs.script]++
+	}
+	c.Bound("cases_per_script", perScript)
 
 	c.ParDo(len(cases), 0, func(i int) {
 		cs := cases[i]
@@ -195,28 +339,17 @@ func runC26(c *fw.Ctx) {
 			c2 = c26Commit(st, t2, c1)
 		}
 		switch cs.planted {
-		case "a->/outside":
-			w.SymlinkSetup("/outside", "/wt/a")
-		case "a->.git":
-			w.SymlinkSetup(".git", "/wt/a")
-		case "a->../outside":
-			w.SymlinkSetup("../outside", "/wt/a")
+		case "":
+		case "aliasdir":
+			for _, f := range []string{"x", "config", "hooks/pre-commit", "refs/heads/main"} {
+				w.WriteFile("/wt/"+cs.name+"/"+f, []byte("seen through the alias: "+f), false)
+			}
+		default:
+			w.SymlinkSetup(strings.TrimPrefix(cs.planted, "a->"), "/wt/a")
 		}
-		cfg, err := st.Config()
-		if err != nil {
-			fw.Abort("config: %v", err)
-		}
-		cfg.Core.ProtectNTFS = config.NewOptBool(cs.ntfs)
-		cfg.Core.ProtectHFS = config.NewOptBool(cs.hfs)
-		if err := st.SetConfig(cfg); err != nil {
-			fw.Abort("set config: %v", err)
-		}
+		c26SetProtect(st, cs.ntfs, cs.hfs)
 		// the config sentinel is taken after our own legitimate write
-		before := map[string]string{}
-		for _, s := range sentinels {
-			b, _ := w.ReadFile(s)
-			before[s] = string(b)
-		}
+		before := c26Sentinels(w, sentinels)
 		w.ResetJournal()
 		repo, err := git.Open(st, w.View("/wt", "wt"))
 		if err != nil {
@@ -227,24 +360,291 @@ func runC26(c *fw.Ctx) {
 			fw.Abort("worktree: %v", err)
 		}
 		var results []string
-		do := func(name string, f func() error) {
-			err := func() (err error) {
-				defer func() {
-					if r := recover(); r != nil {
-						err = fmt.Errorf("panic: %v", r)
-					}
-				}()
-				return f()
-			}()
-			if err != nil && strings.HasPrefix(err.Error(), "panic:") {
-				results = append(results, name+"=PANIC "+err.Error())
-			} else if err != nil {
-				results = append(results, name+"=refused")
-			} else {
-				results = append(results, name+"=ok")
+		swap := func() {
+			switch cs.swap {
+			case "":
+			case "deep->.git", "deep->/outside":
+				d := strings.SplitN(strings.TrimSuffix(strings.TrimPrefix(kinds[cs.k1].name, "dir{"), "}"), "/", 2)[0]
+				if !w.Exists("/wt/a/" + d) {
+					return
+				}
+				w.RemoveSetup("/wt/a/" + d)
+				if cs.swap == "deep->.git" {
+					w.SymlinkSetup("../.git/"+d, "/wt/a/"+d)
+				} else {
+					w.SymlinkSetup("/outside/"+d, "/wt/a/"+d)
+				}
+			default:
+				w.RemoveSetup("/wt/" + cs.name)
+				w.SymlinkSetup(strings.TrimPrefix(cs.swap, "->"), "/wt/"+cs.name)
 			}
 		}
+		results = c26Script(cs, repo, wt, c1, c2, swap)
+		c.Eval()
+		esc := c26Judge(w, sentinels, before, results, cs.ntfs, cs.hfs)
+		shape := fmt.Sprintf("name=%s %s", fw.Q(cs.name), kinds[cs.k1].name)
+		if cs.k2 >= 0 {
+			shape += " then " + kinds[cs.k2].name
+		}
+		if cs.planted != "" {
+			shape += " planted " + cs.planted
+		}
+		if cs.swap != "" {
+			shape += " swapped " + cs.swap
+		}
+		shape += " script " + cs.script
+		c.Class(fmt.Sprintf("%s|%v|%d", strings.Join(results, ","), cs.ntfs, len(esc)))
+		for _, e := range esc {
+			c.Fail(e, fmt.Sprintf("case [%s, protectNTFS=%v protectHFS=%v]: %s (operations: %s)", shape, cs.ntfs, cs.hfs, e, strings.Join(results, ", ")),
+				map[string]any{"name": cs.name, "kind1": kinds[cs.k1].name, "kind2": cs.k2, "planted": cs.planted, "swap": cs.swap, "script": cs.script, "results": results, "all": esc})
+		}
+		if i%211 == 0 {
+			c.Sample(map[string]any{"case": shape, "results": results})
+		}
+	})
+	c26Submodules(c, base, sentinels)
+	c26OSFS(c, kinds, absent)
+	_ = object.ErrUnsupportedObject
+}
+
+func c26SetProtect(st *filesystem.Storage, ntfs, hfs bool) {
+	cfg, err := st.Config()
+	if err != nil {
+		fw.Abort("config: %v", err)
+	}
+	cfg.Core.ProtectNTFS = config.NewOptBool(ntfs)
+	cfg.Core.ProtectHFS = config.NewOptBool(hfs)
+	if err := st.SetConfig(cfg); err != nil {
+		fw.Abort("set config: %v", err)
+	}
+}
+
+func c26Sentinels(w *mcfs.World, sentinels []string) map[string]string {
+	before := map[string]string{}
+	for _, s := range sentinels {
+		b, _ := w.ReadFile(s)
+		before[s] = string(b)
+	}
+	return before
+}
+
+func c26Do(name string, f func() error) string {
+	err := func() (err error) {
+		defer func() {
+			if r := recover(); r != nil {
+				err = fmt.Errorf("panic: %v", r)
+			}
+		}()
+		return f()
+	}()
+	if err != nil && strings.HasPrefix(err.Error(), "panic:") {
+		return name + "=PANIC " + err.Error()
+	} else if err != nil {
+		return name + "=refused"
+	}
+	return name + "=ok"
+}
+
+// c26Judge reads the journal of w by view and returns the (sorted, distinct) escapes.
+func c26Judge(w *mcfs.World, sentinels []string, before map[string]string, results []string, ntfs, hfs bool) []string {
+	var esc []string
+	for _, op := range w.Journal() {
+		view := op.View
+		for _, p := range []string{op.Path, op.Path2} {
+			if !strings.HasPrefix(p, "/") || (op.Kind == "symlink" && p == op.Path2) {
+				continue
+			}
+			how := "reads"
+			if op.Mutating {
+				how = "modifies"
+			} else if op.Kind == "stat" || op.Kind == "lstat" {
+				// existence probes (go-git's own leading-symlink guard stats the ancestors of a path,
+				// deepest first) reveal no content and change nothing: not "reading through" the path
+				continue
+			}
+			switch {
+			case strings.HasPrefix(view, "wt"):
+				inWT := p == "/wt" || strings.HasPrefix(p, "/wt/")
+				inGit, alias := c26InGit(p, op.Mutating, ntfs, hfs)
+				if !inWT {
+					esc = append(esc, fmt.Sprintf("worktree filesystem %s outside the worktree: %s %s", how, op.Kind, c26PathClass(p)))
+				} else if inGit {
+					esc = append(esc, fmt.Sprintf("worktree filesystem %s inside .git%s: %s %s", how, alias, op.Kind, c26PathClass(p)))
+				}
+			case strings.HasPrefix(view, "git/chroot:/modules"):
+				if !strings.HasPrefix(p+"/", "/wt/.git/modules/") {
+					esc = append(esc, fmt.Sprintf("submodule storage %s outside .git/modules: %s %s", how, op.Kind, c26PathClass(p)))
+				}
+			case strings.HasPrefix(view, "git"):
+				if !(p == "/wt/.git" || strings.HasPrefix(p, "/wt/.git/")) {
+					esc = append(esc, fmt.Sprintf("storage filesystem %s outside .git: %s %s", how, op.Kind, c26PathClass(p)))
+				}
+			}
+		}
+	}
+	for _, s := range sentinels {
+		b, ok := w.ReadFile(s)
+		if !ok || string(b) != before[s] {
+			esc = append(esc, "sentinel changed: "+s)
+		}
+	}
+	for _, r := range results {
+		if strings.Contains(r, "=PANIC") {
+			esc = append(esc, "panic in "+strings.SplitN(r, "=", 2)[0])
+		}
+	}
+	sort.Strings(esc)
+	return dedup(esc)
+}
+
+// c26Submodules drives the submodule operations: .gitmodules declares one submodule {name x path}; the tree holds
+// gitlinks at sm and a/sm; links are planted after the checkout. The storage handed out for a submodule must live
+// under .git/modules and its worktree under the worktree, not through a link and not in .git.
+func c26Submodules(c *fw.Ctx, base *mcfs.World, allSentinels []string) {
+	// Submodule.Init legitimately rewrites the repository's config (through the storage filesystem)
+	var sentinels []string
+	for _, s := range allSentinels {
+		if s != "/wt/.git/config" {
+			sentinels = append(sentinels, s)
+		}
+	}
+	modNames := []string{"m", "../m", "a/../../m", "m/../../../outside/m", "..", "m/..", "../hooks", "a/../../hooks", "/abs", "modules/../../refs"}
+	modPaths := []string{"sm", "a/sm", ".git/hooks", "sm/.git", "../outside/sm", "/outside/sm", ".GIT/hooks", "a"}
+	swaps := []string{"", "sm->/outside", "sm->.git", "a->/outside", "a->.git", ".gitmodules->/outside/gm", "sm->.git/hooks"}
+	c.Bound("submodule_names", modNames)
+	c.Bound("submodule_paths", modPaths)
+	c.Bound("submodule_swaps", swaps)
+	type sc struct{ name, path, swap string }
+	var cases []sc
+	for _, n := range modNames {
+		for _, p := range modPaths {
+			for _, s := range swaps {
+				if !c.Thorough() && n != "m" && p != "sm" && s != "" {
+					continue
+				}
+				cases = append(cases, sc{n, p, s})
+			}
+		}
+	}
+	c.Bound("submodule_cases", len(cases))
+	blob := func(st *filesystem.Storage, s string) plumbing.Hash {
+		return c26RawObject(st, plumbing.BlobObject, []byte(s))
+	}
+	gl := plumbing.NewHash("1234567890123456789012345678901234567890")
+	c.ParDo(len(cases), 0, func(i int) {
+		cs := cases[i]
+		w := base.Clone()
+		w.JournalReads = true
+		st := filesystem.NewStorage(w.View("/wt/.git", "git"), cache.NewObjectLRUDefault())
+		gm := fmt.Sprintf("[submodule %q]\n\tpath = %s\n\turl = /outside/remote.git\n", cs.name, cs.path)
+		sub := c26Tree(st, []c26Entry{{"160000", "sm", gl}, {"100644", "f", blob(st, "f\n")}})
+		t1 := c26Tree(st, []c26Entry{{"100644", "keep", blob(st, "keep\n")}, {"100644", ".gitmodules", blob(st, gm)}, {"160000", "sm", gl}, {"40000", "a", sub}})
+		c1 := c26Commit(st, t1)
+		c26SetProtect(st, true, false)
+		before := c26Sentinels(w, sentinels)
+		w.ResetJournal()
+		repo, err := git.Open(st, w.View("/wt", "wt"))
+		if err != nil {
+			fw.Abort("open: %v", err)
+		}
+		wt, err := repo.Worktree()
+		if err != nil {
+			fw.Abort("worktree: %v", err)
+		}
+		var results, extra []string
+		do := func(name string, f func() error) { results = append(results, c26Do(name, f)) }
 		do("Checkout(c1)", func() error { return wt.Checkout(&git.CheckoutOptions{Hash: c1, Force: true}) })
+		if cs.swap != "" {
+			link, target, _ := strings.Cut(cs.swap, "->")
+			w.RemoveSetup("/wt/" + link)
+			w.SymlinkSetup(target, "/wt/"+link)
+		}
+		checkRepo := func(what string, r *git.Repository) {
+			if r == nil {
+				return
+			}
+			defer r.Close()
+			if fs, ok := r.Storer.(interface{ Filesystem() billy.Filesystem }); ok {
+				root := fs.Filesystem().Root()
+				if !strings.HasPrefix(root, "/wt/.git/modules/") {
+					extra = append(extra, what+": submodule storage rooted outside .git/modules: "+c26PathClass(root))
+				}
+			}
+			if swt, err := r.Worktree(); err == nil {
+				root := swt.Filesystem().Root()
+				res := w.Resolve(root)
+				inGit, _ := c26InGit(res+"/", true, true, false)
+				if !(strings.HasPrefix(res, "/wt/")) || inGit {
+					extra = append(extra, what+": submodule worktree rooted outside the worktree or in .git: "+c26PathClass(res))
+				}
+			}
+		}
+		var subs git.Submodules
+		do("Submodules", func() error { var err error; subs, err = wt.Submodules(); return err })
+		for j, s := range subs {
+			s := s
+			tag := fmt.Sprintf("sub%d.", j)
+			do(tag+"Status", func() error { _, err := s.Status(); return err })
+			do(tag+"Init", func() error { return s.Init() })
+			do(tag+"Repository", func() error { r, err := s.Repository(); checkRepo("Repository", r); return err })
+			do(tag+"Status#2", func() error { _, err := s.Status(); return err })
+			do(tag+"Update", func() error { return s.Update(&git.SubmoduleUpdateOptions{Init: true, NoFetch: true}) })
+		}
+		do("Status", func() error { _, err := wt.Status(); return err })
+		do("Submodules.Update", func() error {
+			l, err := wt.Submodules()
+			if err != nil {
+				return err
+			}
+			return l.Update(&git.SubmoduleUpdateOptions{Init: true, NoFetch: true, RecurseSubmodules: git.DefaultSubmoduleRecursionDepth})
+		})
+		do("Checkout(c1)#2", func() error { return wt.Checkout(&git.CheckoutOptions{Hash: c1, Force: true}) })
+		do("Clean", func() error { return wt.Clean(&git.CleanOptions{Dir: true}) })
+		// the storage's own guard, reached directly (the .gitmodules parser is a separate layer in front of it)
+		for _, mn := range []string{cs.name} {
+			do("Storer.Module", func() error {
+				ms, err := st.Module(mn)
+				if err != nil {
+					return err
+				}
+				if fs, ok := ms.(interface{ Filesystem() billy.Filesystem }); ok {
+					root := fs.Filesystem().Root()
+					if !strings.HasPrefix(root+"/", "/wt/.git/modules/") {
+						extra = append(extra, "Storer.Module hands out a storage rooted outside .git/modules/<name>: "+c26PathClass(root))
+					}
+				}
+				var _ storage.Storer = ms
+				return nil
+			})
+		}
+		c.Eval()
+		esc := c26Judge(w, sentinels, before, results, true, false)
+		esc = dedup(append(esc, extra...))
+		sort.Strings(esc)
+		shape := fmt.Sprintf("submodule name=%s path=%s swapped %s", fw.Q(cs.name), fw.Q(cs.path), fw.Q(cs.swap))
+		c.Class(fmt.Sprintf("sub|%s|%d", strings.Join(results, ","), len(esc)))
+		for _, e := range esc {
+			c.Fail(e, fmt.Sprintf("case [%s]: %s (operations: %s)", shape, e, strings.Join(results, ", ")),
+				map[string]any{"name": cs.name, "path": cs.path, "swap": cs.swap, "results": results, "all": esc})
+		}
+		if i%37 == 0 {
+			c.Sample(map[string]any{"case": shape, "results": results})
+		}
+	})
+}
+
+var c26Sig = &object.Signature{Name: "V", Email: "v@example.com", When: time.Unix(1700000000, 0).UTC()}
+
+// c26Script runs one operation script on an opened repository and returns "op=ok|refused|PANIC" per operation.
+// swap is called once, after the first checkout.
+func c26Script(cs c26Case, repo *git.Repository, wt *git.Worktree, c1, c2 plumbing.Hash, swap func()) []string {
+	var results []string
+	sig := c26Sig
+	do := func(name string, f func() error) { results = append(results, c26Do(name, f)) }
+	switch cs.script {
+	case "force":
+		do("Checkout(c1)", func() error { return wt.Checkout(&git.CheckoutOptions{Hash: c1, Force: true}) })
+		swap()
 		if cs.k2 >= 0 {
 			do("Checkout(c2)", func() error { return wt.Checkout(&git.CheckoutOptions{Hash: c2, Force: true}) })
 			do("Reset(hard,c1)", func() error { return wt.Reset(&git.ResetOptions{Mode: git.HardReset, Commit: c1}) })
@@ -261,45 +661,204 @@ func runC26(c *fw.Ctx) {
 		do("Restore", func() error {
 			return wt.Restore(&git.RestoreOptions{Staged: true, Worktree: true, Files: []string{cs.name}})
 		})
-		c.Eval()
-		var esc []string
-		for _, op := range w.Journal() {
-			view := op.View
-			for _, p := range []string{op.Path, op.Path2} {
-				if !strings.HasPrefix(p, "/") || (op.Kind == "symlink" && p == op.Path2) {
+	case "merge":
+		do("Checkout(c1,noforce)", func() error { return wt.Checkout(&git.CheckoutOptions{Hash: c1}) })
+		swap()
+		if cs.k2 >= 0 {
+			do("Checkout(c2,noforce)", func() error { return wt.Checkout(&git.CheckoutOptions{Hash: c2}) })
+			do("Reset(merge,c1)", func() error { return wt.Reset(&git.ResetOptions{Mode: git.MergeReset, Commit: c1}) })
+			do("Reset(keep,c2)", func() error { return wt.Reset(&git.ResetOptions{Mode: git.KeepReset, Commit: c2}) })
+			do("Reset(mixed,c1)", func() error { return wt.Reset(&git.ResetOptions{Mode: git.MixedReset, Commit: c1}) })
+			do("Checkout(c2,keep)", func() error { return wt.Checkout(&git.CheckoutOptions{Hash: c2, Keep: true}) })
+		}
+		do("Reset(merge,c1)#2", func() error { return wt.Reset(&git.ResetOptions{Mode: git.MergeReset, Commit: c1}) })
+		do("Reset(hard,files)", func() error {
+			return wt.Reset(&git.ResetOptions{Mode: git.HardReset, Commit: c1, Files: []string{cs.name, cs.name + "/x", cs.name + "/refs/heads/zz"}})
+		})
+		do("Restore(staged)", func() error {
+			return wt.Restore(&git.RestoreOptions{Staged: true, Files: []string{cs.name, cs.name + "/config"}})
+		})
+		do("Restore(deep)", func() error {
+			return wt.Restore(&git.RestoreOptions{Staged: true, Worktree: true, Files: []string{cs.name + "/hooks/zz", cs.name + "/sub/y2", cs.name + "/config"}})
+		})
+	case "pick":
+		do("Checkout(c1)", func() error { return wt.Checkout(&git.CheckoutOptions{Hash: c1, Force: true}) })
+		swap()
+		do("CherryPick(theirs,c2)", func() error {
+			co, err := repo.CommitObject(c2)
+			if err != nil {
+				return err
+			}
+			return wt.CherryPick(&git.CommitOptions{Author: sig, Committer: sig, AllowEmptyCommits: true}, git.TheirsMergeStrategy, co)
+		})
+		do("CherryPick(ours,c2)", func() error {
+			co, err := repo.CommitObject(c2)
+			if err != nil {
+				return err
+			}
+			return wt.CherryPick(&git.CommitOptions{Author: sig, Committer: sig, AllowEmptyCommits: true}, git.OursMergeStrategy, co)
+		})
+		do("CherryPick(theirs,c1)", func() error {
+			co, err := repo.CommitObject(c1)
+			if err != nil {
+				return err
+			}
+			return wt.CherryPick(&git.CommitOptions{Author: sig, Committer: sig, AllowEmptyCommits: true}, git.TheirsMergeStrategy, co)
+		})
+	case "glob":
+		do("Checkout(c1)", func() error { return wt.Checkout(&git.CheckoutOptions{Hash: c1, Force: true}) })
+		swap()
+		do("AddGlob("+cs.name+"/*)", func() error { return wt.AddGlob(cs.name + "/*") })
+		do("AddGlob(*/*)", func() error { return wt.AddGlob("*/*") })
+		do("AddGlob(*/*/*)", func() error { return wt.AddGlob("*/*/*") })
+		do("Add(All)", func() error { return wt.AddWithOptions(&git.AddOptions{All: true}) })
+		do("Add(Path,SkipStatus)", func() error { return wt.AddWithOptions(&git.AddOptions{Path: cs.name + "/x", SkipStatus: true}) })
+		do("RemoveGlob("+cs.name+"/*)", func() error { return wt.RemoveGlob(cs.name + "/*") })
+		do("RemoveGlob(*)", func() error { return wt.RemoveGlob("*") })
+		do("Clean(files)", func() error { return wt.Clean(&git.CleanOptions{}) })
+		do("Submodules", func() error { _, err := wt.Submodules(); return err })
+	}
+	return results
+}
+
+// c26OSFS repeats a subset on a real directory: with an osfs.BoundOS worktree go-git takes a different route for
+// bulk checkouts (one os.Root for the whole operation, reusableRootFS). os.Root keeps symlinks from leaving the
+// worktree but not from reaching the worktree's own .git, so the judgement here is by content: everything under
+// <dir>/outside and everything under .git that the operations have no business changing is byte-identical.
+func c26OSFS(c *fw.Ctx, kinds []c26Kind, absent int) {
+	var cases []c26Case
+	kindOK := func(k int) bool {
+		n := kinds[k].name
+		return c.Thorough() || n == "absent" || n == "file" || n == "symlink->.git" || n == "dir{config}" || n == "dir{x}" || n == "dir{hooks/zz}" || n == "dir{refs/heads/zz}" || n == "gitlink"
+	}
+	for k1 := range kinds {
+		if !kindOK(k1) {
+			continue
+		}
+		for _, planted := range []string{"", "a->../outside", "a->.git", "a->.git/config", "a->../outside/x"} {
+			for _, script := range []string{"force", "merge"} {
+				if k1 == absent && planted == "" {
 					continue
 				}
-				how := "reads"
-				if op.Mutating {
-					how = "modifies"
-				} else if op.Kind == "stat" || op.Kind == "lstat" {
-					// existence probes (go-git's own leading-symlink guard stats the ancestors of a path,
-					// deepest first) reveal no content and change nothing: not "reading through" the path
-					continue
-				}
-				switch {
-				case strings.HasPrefix(view, "wt"):
-					inWT := p == "/wt" || strings.HasPrefix(p, "/wt/")
-					inGit := strings.HasPrefix(p, "/wt/.git/")
-					if p == "/wt/.git" && op.Mutating {
-						inGit = true
-					}
-					if !inWT {
-						esc = append(esc, fmt.Sprintf("worktree filesystem %s outside the worktree: %s %s", how, op.Kind, c26PathClass(p)))
-					} else if inGit {
-						esc = append(esc, fmt.Sprintf("worktree filesystem %s inside .git: %s %s", how, op.Kind, c26PathClass(p)))
-					}
-				case strings.HasPrefix(view, "git"):
-					if !(p == "/wt/.git" || strings.HasPrefix(p, "/wt/.git/")) {
-						esc = append(esc, fmt.Sprintf("storage filesystem %s outside .git: %s %s", how, op.Kind, c26PathClass(p)))
-					}
+				cases = append(cases, c26Case{"a", k1, -1, planted, "", true, false, script})
+			}
+		}
+		if strings.HasPrefix(kinds[k1].name, "dir") {
+			for _, sw := range []string{"->.git", "->../outside", "->.git/config", "->../outside/x"} {
+				for _, script := range []string{"force", "merge", "pick"} {
+					cases = append(cases, c26Case{"a", k1, absent, "", sw, true, false, script})
+					cases = append(cases, c26Case{"a", k1, 0, "", sw, true, false, script})
 				}
 			}
 		}
-		for _, s := range sentinels {
-			b, ok := w.ReadFile(s)
-			if !ok || string(b) != before[s] {
-				esc = append(esc, "sentinel changed: "+s)
+		for _, n := range []string{".git", ".GIT", "git~1"} {
+			if k1 != absent {
+				cases = append(cases, c26Case{n, k1, absent, "", "", true, false, "force"})
+				cases = append(cases, c26Case{n, k1, absent, "", "", true, false, "pick"})
+			}
+		}
+	}
+	c.Bound("osfs_cases", len(cases))
+	root := c.TempDir("c26osfs")
+	snapshot := func(dir string) map[string]string {
+		m := map[string]string{}
+		filepath.Walk(dir, func(p string, fi os.FileInfo, err error) error {
+			if err != nil {
+				return nil
+			}
+			rel, _ := filepath.Rel(dir, p)
+			switch {
+			case fi.Mode()&os.ModeSymlink != 0:
+				t, _ := os.Readlink(p)
+				m[rel] = "L:" + t
+			case fi.IsDir():
+				m[rel] = "D"
+			default:
+				b, _ := os.ReadFile(p)
+				m[rel] = "F:" + string(b)
+			}
+			return nil
+		})
+		return m
+	}
+	c.ParDo(len(cases), 0, func(i int) {
+		cs := cases[i]
+		d := filepath.Join(root, fmt.Sprint(i))
+		must := func(err error) {
+			if err != nil {
+				fw.Abort("osfs pass set-up: %v", err)
+			}
+		}
+		must(os.MkdirAll(filepath.Join(d, "outside", "sub"), 0o755))
+		must(os.WriteFile(filepath.Join(d, "outside", "x"), []byte("SENTINEL-OUTSIDE"), 0o644))
+		must(os.WriteFile(filepath.Join(d, "outside", "sub", "y"), []byte("SENTINEL-OUTSIDE-2"), 0o644))
+		wtDir := filepath.Join(d, "wt")
+		repo, err := git.PlainInit(wtDir, false)
+		must(err)
+		defer repo.Close()
+		st, ok := repo.Storer.(*filesystem.Storage)
+		if !ok {
+			fw.Abort("osfs pass: storer is %T", repo.Storer)
+		}
+		must(os.MkdirAll(filepath.Join(wtDir, ".git", "hooks"), 0o755))
+		must(os.WriteFile(filepath.Join(wtDir, ".git", "hooks", "pre-commit"), []byte("SENTINEL-HOOK"), 0o755))
+		must(os.MkdirAll(filepath.Join(wtDir, ".git", "refs", "heads"), 0o755))
+		must(os.WriteFile(filepath.Join(wtDir, ".git", "refs", "heads", "main"), []byte("1234567890123456789012345678901234567890\n"), 0o644))
+		blob := func(s string) plumbing.Hash { return c26RawObject(st, plumbing.BlobObject, []byte(s)) }
+		keep := []c26Entry{{"100644", "keep", blob("keep\n")}}
+		t1 := c26Tree(st, append(append([]c26Entry{}, keep...), kinds[cs.k1].build(st, cs.name)...))
+		c1 := c26Commit(st, t1)
+		var c2 plumbing.Hash
+		if cs.k2 >= 0 {
+			t2 := c26Tree(st, append(append([]c26Entry{}, keep...), kinds[cs.k2].build(st, cs.name)...))
+			c2 = c26Commit(st, t2, c1)
+		}
+		if cs.planted != "" {
+			must(os.Symlink(strings.TrimPrefix(cs.planted, "a->"), filepath.Join(wtDir, "a")))
+		}
+		c26SetProtect(st, cs.ntfs, cs.hfs)
+		wt, err := repo.Worktree()
+		must(err)
+		if _, isBound := wt.Filesystem().(*osfs.BoundOS); !isBound {
+			fw.Abort("osfs pass: worktree filesystem is %T, not *osfs.BoundOS", wt.Filesystem())
+		}
+		judged := func() map[string]string {
+			m := snapshot(filepath.Join(d, "outside"))
+			for k, v := range snapshot(filepath.Join(wtDir, ".git")) {
+				top := strings.SplitN(k, string(filepath.Separator), 2)[0]
+				switch top {
+				case "objects", "index", "HEAD", "ORIG_HEAD", "logs", ".":
+					continue
+				}
+				if k == filepath.Join("refs", "heads", "master") {
+					continue
+				}
+				m[".git/"+k] = v
+			}
+			return m
+		}
+		before := judged()
+		swap := func() {
+			if cs.swap == "" {
+				return
+			}
+			os.RemoveAll(filepath.Join(wtDir, cs.name))
+			must(os.Symlink(strings.TrimPrefix(cs.swap, "->"), filepath.Join(wtDir, cs.name)))
+		}
+		results := c26Script(cs, repo, wt, c1, c2, swap)
+		c.Eval()
+		after := judged()
+		var esc []string
+		for k, v := range before {
+			if av, ok := after[k]; !ok {
+				esc = append(esc, "osfs worktree: removed "+c26OSClass(k))
+			} else if av != v {
+				esc = append(esc, "osfs worktree: modified "+c26OSClass(k))
+			}
+		}
+		for k := range after {
+			if _, ok := before[k]; !ok {
+				esc = append(esc, "osfs worktree: created "+c26OSClass(k))
 			}
 		}
 		for _, r := range results {
@@ -309,23 +868,27 @@ func runC26(c *fw.Ctx) {
 		}
 		sort.Strings(esc)
 		esc = dedup(esc)
-		shape := fmt.Sprintf("name=%s %s", fw.Q(cs.name), kinds[cs.k1].name)
+		shape := fmt.Sprintf("osfs name=%s %s", fw.Q(cs.name), kinds[cs.k1].name)
 		if cs.k2 >= 0 {
 			shape += " then " + kinds[cs.k2].name
 		}
-		if cs.planted != "" {
-			shape += " planted " + cs.planted
-		}
-		c.Class(fmt.Sprintf("%s|%v|%d", strings.Join(results, ","), cs.ntfs, len(esc)))
+		shape += " planted " + fw.Q(cs.planted) + " swapped " + fw.Q(cs.swap) + " script " + cs.script
+		c.Class(fmt.Sprintf("osfs|%s|%d", strings.Join(results, ","), len(esc)))
 		for _, e := range esc {
-			c.Fail(e, fmt.Sprintf("case [%s, protectNTFS=%v protectHFS=%v]: %s (operations: %s)", shape, cs.ntfs, cs.hfs, e, strings.Join(results, ", ")),
-				map[string]any{"name": cs.name, "kind1": kinds[cs.k1].name, "kind2": cs.k2, "planted": cs.planted, "results": results, "all": esc})
+			c.Fail(e, fmt.Sprintf("case [%s]: %s (operations: %s)", shape, e, strings.Join(results, ", ")),
+				map[string]any{"name": cs.name, "kind1": kinds[cs.k1].name, "kind2": cs.k2, "planted": cs.planted, "swap": cs.swap, "script": cs.script, "results": results, "all": esc})
 		}
-		if i%211 == 0 {
-			c.Sample(map[string]any{"case": shape, "results": results})
-		}
+		os.RemoveAll(d)
 	})
-	_ = object.ErrUnsupportedObject
+}
+
+func c26OSClass(rel string) string {
+	rel = filepath.ToSlash(rel)
+	if strings.HasPrefix(rel, ".git/") {
+		parts := strings.SplitN(strings.TrimPrefix(rel, ".git/"), "/", 2)
+		return ".git/" + parts[0] + "/…"
+	}
+	return "outside/…"
 }
 
 func c26PathClass(p string) string {
